@@ -46,6 +46,24 @@ def handlerYields (p : Proto) (sp : SpecialParsers) : List (Yield Bytes) → Lis
 def handlerRecvStream (p : Proto) (sp : SpecialParsers) (cfg : ReaderCfg Bytes) (src : Src) : List Bytes × HEnd :=
   handlerYields p sp ((recvAll cfg (src.flat.length / 5 + 2)).run takeExact src).1.1
 
+/-- what `receiveUnaryRequest` (fix F18) makes of an enveloped request side that is to hold a
+    single message (unary over gRPC / gRPC-Web, server streaming over all three protocols), given
+    what `Receive` would yield until it fails: `.inl v` = user code runs and gets `v`;
+    `.inr code` = the call fails with `code` and user code does not run. The second `Receive`
+    must report the clean end: a second message is `unimplemented`, a failure is that failure. -/
+def singleRequest : List Bytes × HEnd → Sum Bytes Nat
+  | ([], .eof) => .inr codeUnknown                 -- NewError(CodeUnknown, io.EOF) goes on the wire
+  | ([], .fail c) => .inr c
+  | ([v], .eof) => .inl v
+  | ([_], .fail c) => .inr c
+  | (_ :: _ :: _, _) => .inr codeUnimplemented     -- "unary request has multiple messages"
+
+/-- the same before fix F18: one `Receive`, the rest of the request side is never looked at -/
+def singleRequestPinned : List Bytes × HEnd → Sum Bytes Nat
+  | ([], .eof) => .inr codeUnknown
+  | ([], .fail c) => .inr c
+  | (v :: _, _) => .inl v
+
 /-- the single `Receive` of a unary Connect handler: the whole body is the message
     (`connectUnaryUnmarshaler.UnmarshalFunc`) -/
 def handlerRecvUnaryConnect (cfg : ReaderCfg Bytes) (src : Src) : Option Bytes × HEnd :=
